@@ -161,6 +161,10 @@ fn yes() -> bool {
 
 #[derive(Clone, Debug, Default, PartialEq, Eq, Serialize, Deserialize)]
 pub struct Cli {
+    /// further variables in the environment scrut itself is started in (`$ROOT` in a value is
+    /// this run's private directory; a directory named by `PWD` is created)
+    #[serde(default, skip_serializing_if = "Vec::is_empty")]
+    pub host_env: Vec<(String, String)>,
     #[serde(default)]
     pub timeout_seconds: Option<u64>,
     /// Some(true) = --combine-output, Some(false) = --no-combine-output
